@@ -216,6 +216,8 @@ pub trait Sut {
 // ------------------------------------------------------------------------------------------
 
 pub struct SyncSut {
+    /// use the panicking wrappers (insert, insert_with_ttl, insert_if_present, remove) instead of try_*
+    pub wrappers: bool,
     pub cap: usize,
     pub cache: SCache,
     pub proc_: RefCell<ParkedProcessor<Val, Validator, RecCallback, DetS>>,
@@ -230,6 +232,7 @@ impl SyncSut {
         };
         let (cache, proc_) = build_chain!(CacheBuilder, cfg, kb, cb.clone())?;
         Ok(SyncSut {
+            wrappers: cfg.order >= 5,
             cap: cfg.buffer_size,
             cache,
             proc_: RefCell::new(proc_),
@@ -258,8 +261,20 @@ fn es<T>(r: Result<T, stretto::CacheError>) -> Result<T, String> {
     r.map_err(|e| e.to_string())
 }
 
+/// the panicking wrappers unwrap the try_* result: a panic is that Err
+fn unwrapped<T>(f: impl FnOnce() -> T) -> Result<T, String> {
+    std::panic::catch_unwind(std::panic::AssertUnwindSafe(f)).map_err(|p| {
+        let _ = crate::common::panics_take();
+        let m = p.downcast_ref::<String>().cloned().or_else(|| p.downcast_ref::<&str>().map(|s| s.to_string())).unwrap_or_default();
+        format!("wrapper panicked: {}", m)
+    })
+}
+
 impl Sut for SyncSut {
     fn insert(&self, k: u64, v: Val, cost: i64, ttl: Duration) -> Result<bool, String> {
+        if self.wrappers {
+            return unwrapped(|| if ttl.is_zero() { self.cache.insert(k, v, cost) } else { self.cache.insert_with_ttl(k, v, cost, ttl) });
+        }
         if ttl.is_zero() {
             es(self.cache.try_insert(k, v, cost))
         } else {
@@ -267,9 +282,15 @@ impl Sut for SyncSut {
         }
     }
     fn insert_if_present(&self, k: u64, v: Val, cost: i64) -> Result<bool, String> {
+        if self.wrappers {
+            return unwrapped(|| self.cache.insert_if_present(k, v, cost));
+        }
         es(self.cache.try_insert_if_present(k, v, cost))
     }
     fn remove(&self, k: u64) -> Result<(), String> {
+        if self.wrappers {
+            return unwrapped(|| self.cache.remove(&k));
+        }
         es(self.cache.try_remove(&k))
     }
     fn get(&self, k: u64) -> Option<(Val, Duration)> {
@@ -450,6 +471,7 @@ fn noop_waker() -> Waker {
 }
 
 pub struct AsyncSut {
+    pub wrappers: bool,
     pub cap: usize,
     pub cache: ACache,
     pub proc_: RefCell<AsyncParkedProcessor<Val, Validator, RecCallback, DetS>>,
@@ -464,6 +486,7 @@ impl AsyncSut {
         };
         let (cache, proc_) = build_chain!(AsyncCacheBuilder, cfg, kb, cb.clone())?;
         Ok(AsyncSut {
+            wrappers: cfg.order >= 5,
             cap: cfg.buffer_size,
             cache,
             proc_: RefCell::new(proc_),
@@ -536,6 +559,9 @@ impl AsyncSut {
 
 impl Sut for AsyncSut {
     fn insert(&self, k: u64, v: Val, cost: i64, ttl: Duration) -> Result<bool, String> {
+        if self.wrappers {
+            return unwrapped(|| if ttl.is_zero() { self.now(self.cache.insert(k, v, cost)) } else { self.now(self.cache.insert_with_ttl(k, v, cost, ttl)) });
+        }
         if ttl.is_zero() {
             es(self.now(self.cache.try_insert(k, v, cost)))
         } else {
@@ -543,6 +569,9 @@ impl Sut for AsyncSut {
         }
     }
     fn insert_if_present(&self, k: u64, v: Val, cost: i64) -> Result<bool, String> {
+        if self.wrappers {
+            return unwrapped(|| self.now(self.cache.insert_if_present(k, v, cost)));
+        }
         es(self.now(self.cache.try_insert_if_present(k, v, cost)))
     }
     fn remove(&self, k: u64) -> Result<(), String> {
